@@ -58,13 +58,20 @@ def run_history(res, ctx, root, rng, hidx, max_steps, con):
     d.mkdir()
     f = d / t["fname"]
     rel = os.path.relpath(f, root)
-    start = rng.choice(["empty", "code", "foreign", "tool"])
+    start = rng.choice(["empty", "code", "foreign", "tool", "handwritten", "handwritten"])
     if start == "empty":
         f.write_text("")
     elif start == "code":
         f.write_text("K1 code\nK2 code\n")
     elif start == "foreign":
         f.write_text("@@ SPDX-FileCopyrightText: 2001 Foreign Holder\n@@ SPDX-License-Identifier: ISC\n\nK1 code\n")
+    elif start == "handwritten":
+        # a header a person wrote, in the file's own comment style: compact and spaced year ranges, mixed prefixes
+        hw = [rng.choice(["SPDX-FileCopyrightText: 2015-2017 Hand Writer", "Copyright (C) 2012-2014 Hand Writer", "SPDX-FileCopyrightText: 2011 -2013 Hand Writer",
+                          "SPDX-FileCopyrightText: 2009 - 2010 Hand Writer", "Copyright 2016- 2018 Hand Writer"]),
+              rng.choice(["SPDX-FileCopyrightText: 2003-2005 Mary Sue <mary@example.com>", "© 2001 Mary Sue <mary@example.com>"]),
+              "", "SPDX-License-Identifier: Zlib", "SPDX-FileContributor: Hand Contributor"]
+        f.write_text(trees.comment_block(styles[t["short"]], hw, multi=rng.random() < 0.3) + "\n\nK1 code\n")
     else:
         f.write_text("K1 code\n")
         run_cli(["--no-multiprocessing", "--root", str(root), "annotate", "-c", "Earlier Holder", "-l", "CC0-1.0", "--year", "2015", str(f)], cwd=str(root))
@@ -196,7 +203,10 @@ def run_history(res, ctx, root, rng, hidx, max_steps, con):
                               args=args + opts, history=sig)
                 return
             if style_const and "--no-replace" not in sig[-1] and not hostile and not hides:
-                for h in holders:
+                # every holder the (visible) header has ever declared, not only the ones requested in this step
+                for h in sorted(years_by_holder):
+                    if h == "Foreign Holder":
+                        continue
                     ys = years_by_holder.get(h) or set()
                     if not ys:
                         continue
